@@ -86,6 +86,11 @@ def _index_terms(exprs, limit=6000):
             t = e.arg(1)
             if not _has_var(t) and not z3.is_int_value(t):
                 out.append(t)
+        elif z3.is_app(e) and e.decl().kind() == z3.Z3_OP_SELECT and e.num_args() == 2 and z3.is_int(e.arg(1)):
+            # integer-indexed arrays (a queue kept as array + length) are indexed like sequences
+            t = e.arg(1)
+            if not _has_var(t) and not z3.is_int_value(t):
+                out.append(t)
         stack.extend(e.children())
     uniq, ids = [], set()
     for t in out:
@@ -102,6 +107,17 @@ def _inst(q, terms, depth, out, budget):
     if z3.is_and(q):
         for c in q.children():
             _inst(c, terms, depth, out, budget)
+        return
+    if z3.is_or(q):
+        # A or (B and forall x. P(x))  (what simplify makes of A' => ...): instantiate inside the disjunct
+        ch = q.children()
+        for k, c in enumerate(ch):
+            if _has_quant(c):
+                sub = []
+                _inst(c, terms, depth + 1, sub, budget)
+                rest = ch[:k] + ch[k + 1:]
+                for x in sub:
+                    out.append(z3.Or(rest + [x]))
         return
     if z3.is_implies(q) and (z3.is_quantifier(q.arg(1)) or z3.is_and(q.arg(1))):
         sub = []
